@@ -90,9 +90,9 @@ func linkStateHandles(c *core.Ctx) {
 	// (d) exemptions
 	exempt := map[string]string{
 		isisSrv + ".(*neighbor).threeWayHandshakeOK|devStatus":              "a neighbor object is created by the hello receiver, which only runs on an interface that received a device update",
-		isisSrv + ".(*neighbor).extendedISReachabilityNeighbor|devStatus":    "a neighbor object is created by the hello receiver, which only runs on an interface that received a device update",
+		isisSrv + ".(*neighbor).extendedISReachabilityNeighbor|devStatus":   "a neighbor object is created by the hello receiver, which only runs on an interface that received a device update",
 		isisSrv + ".(*neighborManager).validateNeighborAddresses|devStatus": "called from hello processing on the receiver routine",
-		isisSrv + ".(*netIfa).ipv4Addrs|devStatus":                           "callers: hello construction (sender routine) and the reachability TLV, which tests devStatus before the call (rule (c) cannot see through the range loop)",
+		isisSrv + ".(*netIfa).ipv4Addrs|devStatus":                          "callers: hello construction (sender routine) and the reachability TLV, which tests devStatus before the call (rule (c) cannot see through the range loop)",
 	}
 	type use struct {
 		f     *core.Fn
